@@ -40,7 +40,8 @@ def job_ops(job, plan):
             ol = max(ol, est // 30 + 1)
         ops += ["setfn %d" % maxilen, "pulldrain %d %s" % (ol, " ".join(pat)), "pull %d" % ol, "hash"]
         return ops
-    ops.append("eoistyle %d" % rng.below(4))   # how end-of-input is said and how the drain calls look (harness/cr/trace.c after_end)
+    ops.append("eoistyle %d" % rng.below(5))   # how end-of-input is said and how the drain calls look (harness/cr/trace.c after_end)
+    ops.append("nullout %d" % rng.below(2))    # a call that asks for 0 frames passes out == NULL (soxr.h allows it)
     blk = rng.choice([1, 100, 1000, 1000, 8192, 50000])
     blk = max(blk, N // 400 + 1)
     big = est + 100
@@ -67,7 +68,7 @@ def oracle(job, tr):
         if l.startswith("> cr.proc") or l.startswith("> cr.pull"):
             t = l.split()
             if t[1] == "cr.proc":
-                olen = int(t[6]); flushed = flushed or t[2] != "1" or (t[3] == "1" and t[5] == "0")
+                olen = int(t[6]); flushed = flushed or cr.signals_end(t)
             else:
                 olen = int(t[2])
         elif l.startswith("> cr.eoi"):
